@@ -223,7 +223,7 @@ func (x *opFunction) Validate(rootValue cue.Value, cuePath CuePath, previousType
 		returnedType.CueExpr = getExpr(cuePathValue)
 		part.Type = returnedType
 
-		part.Available.Fields, err = getAvailableFieldsForValue(cuePathValue, blockedRootFields)
+		part.Available.Fields, err = getAvailableFieldsForValue(cuePathValue, nil) // fields of a list element, not of the root
 		if err != nil {
 			errMessage := fmt.Sprintf("failed to get available fields: %v", err)
 			if part.Error != nil {
